@@ -54,6 +54,7 @@ class Result:
         self.trace: List[str] = []
         self.error: Optional[str] = None
         self.history: list = []
+        self.requests: list = []
         self.lib_error: Optional[str] = None
 
 
@@ -140,6 +141,8 @@ class Run(Oracles):
                 asyncio.set_event_loop(None)
                 loop.close()
         res.history = self.history()
+        res.requests = [(pm.idx, rm.rid, rm.kind, bool(rm.accepted), rm.group if rm.accepted else None, len(rm.tids), len(rm.calls), rm.pulled)
+                        for pm in w.pools for rm in pm.reqs]
         res.violations = [v.as_dict() for v in w.viol]
         res.labels = sorted(w.labels)
         res.stats = dict(w.stats)
@@ -374,6 +377,9 @@ class Run(Oracles):
         before = set(asyncio.all_tasks(w.loop))
         snap = self.snapshot(pm)
         expected = self.expected_rejection(pm, rm)
+        if expected["must"] and self.program.get("suppress_rejected"):
+            w.label("twin:request-not-made")      # the twin of C09: what must be rejected is not requested at all
+            return
         try:
             name = self.call_spawn(pm, rm)
         except Exception as e:
